@@ -404,15 +404,12 @@ func ruleA4(c *Ctx) {
 	m := c.M
 	c.rule("A4", "activation needs all of it: the accept loop reaches the activation only through the success branches of newExternalPlugin, start and the sync callback; every failure continues with the next connection (no return), so later plugins are served", 3)
 	f := acceptLoop(m)
-	adT := m.named(pkgAdapt, "Adaptation")
-	var act *ssa.Store
-	for _, fs := range m.fieldStores(f, adT, "plugins") {
-		act = fs.Store
-	}
-	if act == nil {
+	sites := activationSites(m, f)
+	if len(sites) == 0 {
 		c.violate("A4", "activation", f.Pos(), "the accept loop activates plugins", "no activation found")
 		return
 	}
+	act := sites[0].At
 	steps := []struct {
 		name string
 		fn   *ssa.Function
